@@ -68,6 +68,62 @@ func replaceIntForalls(n *sx, positive bool, terms []string) (string, bool) {
 	return n.String(), false
 }
 
+// replaceIntExists returns the formula with every positively occurring (exists ((x Int)) body) replaced by
+// the disjunction of body[x:=t] for t in terms. The result implies the original formula, so it may be used
+// as a (stronger) goal: proving it proves the obligation.
+func replaceIntExists(n *sx, positive bool, terms []string) (string, bool) {
+	if n.list == nil {
+		return n.atom, false
+	}
+	if len(n.list) == 0 {
+		return "()", false
+	}
+	head := n.list[0].atom
+	switch head {
+	case "exists":
+		if positive && len(n.list) == 3 && len(n.list[1].list) == 1 && len(n.list[1].list[0].list) == 2 && n.list[1].list[0].list[1].atom == "Int" {
+			v := n.list[1].list[0].list[0].atom
+			body := n.list[2]
+			if body.list != nil && len(body.list) >= 2 && body.list[0].atom == "!" {
+				body = body.list[1]
+			}
+			bs := body.String()
+			var insts []string
+			for _, t := range terms {
+				insts = append(insts, substSym(bs, v, t))
+			}
+			if len(insts) == 1 {
+				return insts[0], true
+			}
+			return "(or " + strings.Join(insts, " ") + ")", true
+		}
+		return n.String(), false
+	case "forall", "let", "!":
+		return n.String(), false
+	case "not":
+		if len(n.list) == 2 {
+			s, ok := replaceIntExists(n.list[1], !positive, terms)
+			return "(not " + s + ")", ok
+		}
+	case "=>":
+		if len(n.list) == 3 {
+			a, ok1 := replaceIntExists(n.list[1], !positive, terms)
+			b, ok2 := replaceIntExists(n.list[2], positive, terms)
+			return "(=> " + a + " " + b + ")", ok1 || ok2
+		}
+	case "and", "or":
+		var parts []string
+		any := false
+		for _, c := range n.list[1:] {
+			s, ok := replaceIntExists(c, positive, terms)
+			parts = append(parts, s)
+			any = any || ok
+		}
+		return "(" + head + " " + strings.Join(parts, " ") + ")", any
+	}
+	return n.String(), false
+}
+
 // instantiateContext produces instance assertions for the context lines.
 func (g *Gen) instantiateContext(terms []string) []string {
 	var out []string
